@@ -7,13 +7,24 @@
 package main
 
 import (
+	"bytes"
+	"crypto/sha256"
 	"encoding/hex"
+	"encoding/json"
 	"errors"
+	"fmt"
+	"io"
 	"io/fs"
+	"net/http"
+	"net/http/httptest"
 	"os"
 	"path/filepath"
+	"sort"
 	"strings"
+	"sync"
 
+	"github.com/gin-gonic/gin"
+	"github.com/ollama/ollama/fs/ggml"
 	"github.com/ollama/ollama/server"
 	"github.com/ollama/ollama/types/model"
 	"verifharness/hx"
@@ -44,6 +55,128 @@ func filepathOf(n model.Name) (code int, fp string) {
 		}
 	}()
 	return 0, n.Filepath()
+}
+
+// ---------------------------------------------------------------- the real router (legacy handlers)
+
+type rec struct {
+	*httptest.ResponseRecorder
+	ch chan bool
+}
+
+func (r *rec) CloseNotify() <-chan bool { return r.ch }
+
+var (
+	router     http.Handler
+	routerOnce sync.Once
+	ggufOnce   sync.Once
+	ggufData   []byte
+)
+
+func getRouter() http.Handler {
+	routerOnce.Do(func() {
+		gin.SetMode(gin.ReleaseMode)
+		gin.DefaultWriter = io.Discard
+		gin.DefaultErrorWriter = io.Discard
+		s := &server.Server{}
+		h, err := s.GenerateRoutes(nil)
+		if err != nil {
+			panic(err)
+		}
+		router = h
+	})
+	return router
+}
+
+func doJSON(method, path string, v any) (int, string) {
+	b, _ := json.Marshal(v)
+	req := httptest.NewRequest(method, path, bytes.NewReader(b))
+	req.Host = "127.0.0.1"
+	req.Header.Set("Content-Type", "application/json")
+	w := &rec{httptest.NewRecorder(), make(chan bool, 1)}
+	getRouter().ServeHTTP(w, req)
+	return w.Code, w.Body.String()
+}
+
+// tinyGGUF: a model file written by the real ggml.WriteGGUF (no tensors)
+func tinyGGUF() []byte {
+	ggufOnce.Do(func() {
+		f, err := os.CreateTemp("", "c13gguf")
+		if err != nil {
+			panic(err)
+		}
+		defer os.Remove(f.Name())
+		defer f.Close()
+		if err := ggml.WriteGGUF(f, ggml.KV{"general.architecture": "llama"}, nil); err != nil {
+			panic(err)
+		}
+		ggufData, _ = os.ReadFile(f.Name())
+	})
+	return ggufData
+}
+
+func putBlob(root string, data []byte) map[string]any {
+	sum := sha256.Sum256(data)
+	h := hex.EncodeToString(sum[:])
+	os.MkdirAll(filepath.Join(root, "blobs"), 0o755)
+	os.WriteFile(filepath.Join(root, "blobs", "sha256-"+h), data, 0o644)
+	return map[string]any{"digest": "sha256:" + h, "size": len(data)}
+}
+
+// seedModel writes a complete model (GGUF layer, system layer "S<id>", config) under the name as typed
+func seedModel(root string, q []string, id int) error {
+	layer := func(mt string, data []byte) map[string]any {
+		l := putBlob(root, data)
+		l["mediaType"] = mt
+		return l
+	}
+	m := map[string]any{
+		"schemaVersion": 2,
+		"mediaType":     "application/vnd.docker.distribution.manifest.v2+json",
+		"config":        layer("application/vnd.docker.container.image.v1+json", []byte(`{"model_format":"gguf","model_family":"llama","model_families":["llama"]}`)),
+		"layers": []any{
+			layer("application/vnd.ollama.image.model", tinyGGUF()),
+			layer("application/vnd.ollama.image.system", []byte(fmt.Sprintf("S%d", id))),
+		},
+	}
+	p := filepath.Join(root, "manifests", q[0], q[1], q[2], q[3])
+	if err := os.MkdirAll(filepath.Dir(p), 0o755); err != nil {
+		return err
+	}
+	b, _ := json.Marshal(m)
+	return os.WriteFile(p, b, 0o644)
+}
+
+// storeListing: every manifest file at depth 4 with the identity (system prompt) of its model
+func storeListing(root string) []any {
+	out := []any{}
+	matches, _ := filepath.Glob(filepath.Join(root, "manifests", "*", "*", "*", "*"))
+	sort.Strings(matches)
+	for _, p := range matches {
+		fi, err := os.Stat(p)
+		if err != nil || fi.IsDir() {
+			continue
+		}
+		rel, _ := filepath.Rel(filepath.Join(root, "manifests"), p)
+		id := -1
+		var m struct {
+			Layers []struct {
+				MediaType string `json:"mediaType"`
+				Digest    string `json:"digest"`
+			} `json:"layers"`
+		}
+		if b, err := os.ReadFile(p); err == nil && json.Unmarshal(b, &m) == nil {
+			for _, l := range m.Layers {
+				if l.MediaType == "application/vnd.ollama.image.system" {
+					if d, err := os.ReadFile(filepath.Join(root, "blobs", strings.Replace(l.Digest, ":", "-", 1))); err == nil {
+						fmt.Sscanf(string(d), "S%d", &id)
+					}
+				}
+			}
+		}
+		out = append(out, map[string]any{"parts": hx.HexList(strings.Split(rel, "/")), "id": id})
+	}
+	return out
 }
 
 func main() {
@@ -256,6 +389,89 @@ func main() {
 			n1, n2 := server.VerifC13NamesParse(s1), server.VerifC13NamesParse(s2)
 			return map[string]any{"v1": m1.IsValid(), "v2": m2.IsValid(), "ef": m1.EqualFold(m2),
 				"nv1": n1.Valid, "nv2": n2.Valid, "nfq1": n1.FQ, "nfq2": n2.FQ}
+		case "cachehist":
+			dir, err := os.MkdirTemp(".", "ch")
+			if err != nil {
+				return map[string]any{"harness_error": err.Error()}
+			}
+			defer os.RemoveAll(dir)
+			if b, _ := c["absdir"].(bool); b {
+				dir = filepath.Join(cwd, dir)
+			}
+			var ops []server.VerifC13HOp
+			for _, x := range c["ops"].([]any) {
+				m := x.(map[string]any)
+				op := server.VerifC13HOp{Op: m["op"].(string)}
+				if v, ok := m["name"]; ok {
+					op.Name = hx.Unhex(v)
+				}
+				if v, ok := m["path"]; ok {
+					op.Path = hx.Unhex(v)
+				}
+				if v, ok := m["id"]; ok {
+					op.Data = []byte(fmt.Sprintf("D%d", hx.Int(v)))
+				}
+				ops = append(ops, op)
+			}
+			obs, err := server.VerifC13History(dir, ops)
+			if err != nil {
+				return map[string]any{"harness_error": err.Error()}
+			}
+			var res []any
+			for _, o := range obs {
+				res = append(res, map[string]any{"code": o.Code, "err": o.Err, "digest": o.Digest, "ok": o.Ok, "links": hx.HexList(o.Links), "sums": o.Sums})
+			}
+			return map[string]any{"res": res}
+		case "handlers":
+			dir, err := os.MkdirTemp(".", "hs")
+			if err != nil {
+				return map[string]any{"harness_error": err.Error()}
+			}
+			defer os.RemoveAll(dir)
+			root := filepath.Join(cwd, dir)
+			os.Setenv("OLLAMA_MODELS", root)
+			for _, x := range c["seed"].([]any) {
+				m := x.(map[string]any)
+				if err := seedModel(root, hx.UnhexList(m["parts"]), hx.Int(m["id"])); err != nil {
+					return map[string]any{"harness_error": err.Error()}
+				}
+			}
+			f := false
+			var res []any
+			for _, x := range c["ops"].([]any) {
+				m := x.(map[string]any)
+				o := map[string]any{"id": -1}
+				var code int
+				var body string
+				switch m["op"] {
+				case "show":
+					code, body = doJSON("POST", "/api/show", map[string]any{"model": hx.Unhex(m["name"])})
+					var r struct {
+						System string `json:"system"`
+					}
+					if code == 200 && json.Unmarshal([]byte(body), &r) == nil {
+						id := -1
+						fmt.Sscanf(r.System, "S%d", &id)
+						o["id"] = id
+					}
+				case "delete":
+					code, body = doJSON("DELETE", "/api/delete", map[string]any{"model": hx.Unhex(m["name"])})
+				case "copy":
+					code, body = doJSON("POST", "/api/copy", map[string]any{"source": hx.Unhex(m["src"]), "destination": hx.Unhex(m["dst"])})
+				case "create":
+					code, body = doJSON("POST", "/api/create", map[string]any{"model": hx.Unhex(m["name"]), "from": hx.Unhex(m["from"]),
+						"system": fmt.Sprintf("S%d", hx.Int(m["id"])), "stream": &f})
+				}
+				o["code"] = code
+				o["ok"] = code == 200 && !strings.Contains(body, `"error"`)
+				if len(body) > 300 {
+					body = body[len(body)-300:]
+				}
+				o["body"] = body
+				o["store"] = storeListing(root)
+				res = append(res, o)
+			}
+			return map[string]any{"res": res}
 		case "splitnd":
 			a, b := server.VerifC13SplitNameDigest(hx.Unhex(c["s"]))
 			return map[string]any{"name": hx.Hex(a), "digest": hx.Hex(b)}
